@@ -185,7 +185,13 @@ func (t *tr) dtSortRecvFields() {
 	for i := 0; i < st.NumFields(); i++ {
 		pos[st.Field(i).Name()] = i
 	}
-	sort.SliceStable(t.recvFields, func(i, j int) bool { return pos[t.recvFields[i].field] < pos[t.recvFields[j].field] })
+	first := func(f string) string { // (round 3: a path `dataFile.lastBlockID` sorts with its first component)
+		if i := strings.Index(f, "."); i >= 0 {
+			return f[:i]
+		}
+		return f
+	}
+	sort.SliceStable(t.recvFields, func(i, j int) bool { return pos[first(t.recvFields[i].field)] < pos[first(t.recvFields[j].field)] })
 }
 
 // ---- clock reads -------------------------------------------------------------------------------
